@@ -33,9 +33,27 @@ func main() {
 	if len(os.Args) > 4 {
 		tier = os.Args[4]
 	}
+	if os.Args[1] == "boardwriter" {
+		// boardwriter <file> <lock> <writer> <size>... : one OS process appending through its own handle
+		var sizes []int
+		for _, a := range os.Args[5:] {
+			n, _ := strconv.Atoi(a)
+			sizes = append(sizes, n)
+		}
+		w, _ := strconv.Atoi(os.Args[4])
+		if err := runBoardWriter(os.Args[2], os.Args[3], w, sizes); err != nil {
+			fmt.Fprintln(os.Stderr, err)
+			os.Exit(1)
+		}
+		return
+	}
 	switch os.Args[1] {
+	case "boarddiff":
+		runBoardDiff(os.Args[2], seed, tier)
 	case "fsmdiff":
 		runFsmDiff(os.Args[2], seed, tier)
+	case "sszdiff":
+		runSszDiff(os.Args[2], seed, tier)
 	default:
 		fmt.Fprintln(os.Stderr, "unknown driver", os.Args[1])
 		os.Exit(2)
